@@ -39,8 +39,12 @@ REQUIRED = ["Sqfs.C12.read_at_spec", "Sqfs.C12.read_at_never_short", "Sqfs.C12.w
             "Sqfs.C12.get_line_chunking_independent", "Sqfs.C12.record_to_memory_spec",
             "Sqfs.C12.xfrm_istream_chunking_independent", "Sqfs.C12.xfrm_ostream_script_independent",
             "Sqfs.C12.tar_member_stream_chunking_independent", "Sqfs.C12.tar_member_run_chunking_independent",
-            "Sqfs.C12.tar_member_run_decompressed_chunking_independent"]
-WRAP = ["read", "write", "pread", "pwrite", "pread64", "pwrite64", "lseek", "lseek64", "ftruncate", "ftruncate64", "fsync"]
+            "Sqfs.C12.tar_member_run_decompressed_chunking_independent",
+            "Sqfs.C12.drain_compressed_stream_chunking_independent"]
+WRAP = ["read", "write", "pread", "pwrite", "pread64", "pwrite64", "lseek", "lseek64", "ftruncate", "ftruncate64", "fsync",
+        # tar_open_stream asks these two for the decompressor behind a magic: the harness answers with its toy decompressor,
+        # so that the real tar_open_stream takes its `compressed = true` branch (xtarstrm)
+        "xfrm_compressor_id_from_magic", "decompressor_stream_create"]
 ISTREAM_C = "lib/sqfs/src/io/istream.c"
 OSTREAM_C = "lib/sqfs/src/io/ostream.c"
 XISTREAM_C = "lib/xfrm/src/istream.c"
@@ -298,9 +302,85 @@ def expand_member(record, filesize, sparse):
     return bytes(out)
 
 
+Z_MAGIC = 0xC1
+
+
+def z_decode(z):
+    """what the toy decompressor (harness z_process / model zProc) makes of a stream: (decoded bytes up to the first error,
+    damaged?) — damaged = wrong magic, length byte 0xFF, or the input ends anywhere but behind the end mark"""
+    if not z or z[0] != Z_MAGIC:
+        return b"", True
+    out, i = bytearray(), 1
+    while True:
+        if i >= len(z):
+            return bytes(out), True                  # truncated: no end mark
+        ln = z[i]
+        if ln == 0:
+            return bytes(out), False                 # end mark; what follows is ignored
+        if ln == 255:
+            return bytes(out), True
+        out += z[i + 1:i + 1 + ln]
+        if i + 1 + ln > len(z):
+            return bytes(out), True                  # truncated inside a block
+        i += 1 + ln
+
+
+def z_encode(rng, arch, marker_end, big):
+    """a stream of the toy compressor for `arch`, possibly truncated / damaged behind the first header block.
+    marker_end: offset in `arch` behind the end-of-archive marker (None when the archive has none).
+    Returns (stream, mode)."""
+    blocks, pos = [], 0                              # (archive offset, length)
+    while pos < len(arch):
+        ln = 254 if big and rng.random() < 0.95 else rng.choice([1, 2, 5, 100, 253, 254, rng.randint(1, 254)])
+        ln = min(ln, len(arch) - pos)
+        blocks.append((pos, ln))
+        pos += ln
+    def emit(upto=None, badlen_at=None):
+        out = bytearray([Z_MAGIC])
+        for k, (p, ln) in enumerate(blocks):
+            if upto is not None and k >= upto:
+                return out, False
+            if badlen_at == k:
+                out.append(255)
+                out += arch[p:p + min(ln, 3)]
+                return out, False
+            out.append(ln)
+            out += arch[p:p + ln]
+        if badlen_at == len(blocks):
+            out.append(255)
+            return out, False
+        return out, True
+    r = rng.random()
+    later = [k for k, (p, ln) in enumerate(blocks) if p >= 512]
+    behind = [k for k, (p, ln) in enumerate(blocks) if marker_end is not None and p >= marker_end] + \
+             ([len(blocks)] if marker_end is not None else [])
+    if r < 0.35 or not later:
+        out, _ = emit()
+        out.append(0)
+        if rng.random() < 0.3:
+            out += bytes(rng.randint(0, 255) for _ in range(rng.choice([1, 5, 6, 70, 600])))
+            return bytes(out), "ok+garbage"
+        return bytes(out), "ok"
+    if r < 0.55:
+        out, _ = emit()                               # everything but the end mark
+        return bytes(out), "no-end-mark"
+    if r < 0.7:
+        out, _ = emit()
+        lo = next(i for i in range(len(out) + 1) if len(z_decode(bytes(out[:i]))[0]) >= 512 or i == len(out))
+        cut = rng.randint(lo, len(out)) if rng.random() < 0.6 or not behind else \
+            rng.randint(min(len(out), lo + (marker_end - 512)), len(out))
+        return bytes(out[:max(cut, 1)]), "truncated"
+    k = rng.choice(behind) if behind and rng.random() < 0.6 else rng.choice(later + [len(blocks)])
+    out, _ = emit(badlen_at=k)
+    return bytes(out), "bad-length"
+
+
 def gen_tarstrm(rng, B, big, BX=None):
     """one archive member (plain or old-GNU sparse) read through the real tar iterator's member stream; with BX the
-    archive stream is the transforming istream (pass-through codec) on top of the file istream"""
+    input is a stream of the toy compressor (intact, with trailing garbage, without its end mark, truncated, or with a bad
+    length byte behind the first header block): the real tar_open_stream finds the magic, wraps the file istream into the
+    transforming istream around the toy decompressor and sets `compressed`, so that it_next drains the rest of the stream
+    at the end of the archive and reports the decompressor's error"""
     sparse = []
     if rng.random() < 0.6:
         # sorted, non-overlapping data regions; holes around the 4096-byte zero window of the member stream
@@ -325,8 +405,16 @@ def gen_tarstrm(rng, B, big, BX=None):
     else:
         body_len = recsize
         tail = rng.choice([b"", b"\0" * 1024, b"\0" * 100, b"\0" * 512, bytes([0, 0, 7, 0]) * 25, b"\0" * 1030])
-        if cut < 0.2:
+        if BX is not None and rng.random() < 0.5:
+            tail = b"\0" * 1024                                    # compressed input: mostly a complete end-of-archive marker
+        if cut < 0.2 and not (BX is not None and rng.random() < 0.6):
             pad, tail = rng.randint(0, pad), b""                  # the padding ends early
+    marker_end = None
+    if BX is not None and body_len == recsize and len(tail) >= 1024 and not tail[:1024].strip(b"\0"):
+        # what follows the end-of-archive marker is only ever read by drain_compressed_stream
+        marker_end = 512 + recsize + pad + 1024
+        tail = tail[:1024] + rng.choice([b"", b"", b"\0" * 6, bytes(rng.randint(0, 255) for _ in range(rng.choice([1, 30, 700]))),
+                                         b"\0" * 9216, bytes([1, 2, 3]) * rng.choice([100, 1500])])
     if body_len <= 64:
         body = hexdata(bytes(rng.randint(0, 255) for _ in range(body_len)))
     else:
@@ -347,9 +435,16 @@ def gen_tarstrm(rng, B, big, BX=None):
     sp = ",".join("%d:%d" % x for x in sparse) if sparse else "-"
     o = ",".join(ops)
     if BX is not None:
-        return {"kind": "xtarstrm", "B": B, "script": sc,
+        first = next((i for i, e in enumerate(sc) if e[0] != "i"), None)
+        if first is not None and sc[first][0] in "ez" and rng.random() < 0.85:
+            # a probe that fails sends tar_open_stream down the uncompressed path (outside the model): mostly let it succeed
+            sc = sc[:first] + ["p0"] + sc[first:]
+        z, zmode = z_encode(rng, parse_data(d), marker_end, big)
+        d = z.hex()
+        return {"kind": "xtarstrm", "B": B, "script": sc, "zmode": zmode,
                 "line": "xtarstrm %d %d %s %s %d %d %s %s %s" % (B, BX, fl, d, recsize, filesize, sp, o, script_tok(sc)),
                 "full": "xtarstrm %d %d %s %s %d %d %s %s -" % (B, BX, fl, d, recsize, filesize, sp, o),
+                "spec": "xtarspec %d %d %s %d %d %s %s" % (B, BX, d, recsize, filesize, sp, o),
                 "args": (d, recsize, filesize, sparse, ops)}
     return {"kind": "tarstrm", "B": B, "script": sc,
             "line": "tarstrm %d %s %s %d %d %s %s %s" % (B, fl, d, recsize, filesize, sp, o, script_tok(sc)),
@@ -434,6 +529,7 @@ def observable(kind, out):
     o = TAIL.sub("", out)
     if kind in ("istream", "xistream", "tarstrm", "xtarstrm"):
         o = re.sub(r"x?st=\S+ ", "", o)
+        o = re.sub(r"z=1 ", "", o)               # tar->compressed: private (shown for the correspondence only)
         o = re.sub(r" size=\d+ sparse=\d+ pos=\d+", "", o)
     if kind in ("ostream", "xostream"):
         o = re.sub(r" size=\d+", "", o)          # `file->size` is write-only bookkeeping (double counts under NO_SPARSE)
@@ -503,10 +599,22 @@ def tar_monitor(sc, out):
     the expanded member content in order (data regions from the record, zeros in the holes), for every script; a
     read may fail or come up short only under a hard script or when the record is cut short"""
     d, recsize, filesize, sparse, ops = sc["args"]
-    data = parse_data(d)
+    data, damaged = parse_data(d), False
+    hard = is_hard(sc["script"])
+    if sc["kind"] == "xtarstrm":
+        if out.startswith("z=0"):
+            return []                            # probe failed: tar_open_stream reads the raw stream (outside the model)
+        # the archive as far as the toy decompressor delivers it; the transforming istream decodes ahead, so that with a
+        # damaged stream any call may already fail with SQFS_ERROR_COMPRESSOR — but what is delivered must be right
+        data, damaged = z_decode(data)
     toks = TAIL.sub("", out).split(" ")
+    if damaged and not hard and ("n1=1" in toks[:1] or "n2=1" in toks):
+        # independent re-computation of what drain_compressed_stream is for (/repo d69b61b): the end of the archive is
+        # never reported for a compressed input that is truncated or damaged, whatever the chunking
+        return ["end of archive reported although the compressed stream is truncated/damaged behind it"]
+    hard = hard or damaged
     if not toks or toks[0] != "n1=0":
-        if not is_hard(sc["script"]) and len(data) >= 512:
+        if not hard and len(data) >= 512:
             return ["it_next did not deliver the member header although no hard error was scripted: %s" % toks[:1]]
         return []
     record = data[512:512 + recsize]
@@ -524,11 +632,11 @@ def tar_monitor(sc, out):
             break
         n = int(m.group(1))
         if n < 0:
-            if not is_hard(sc["script"]) and avail_rec >= recsize:
+            if not hard and avail_rec >= recsize:
                 bad.append("member read failed (%d) although the record is complete and no hard error was scripted" % n)
             break
         exp = content[pos:pos + min(size, 0x7FFFFFFF)]
-        if m.group(2) != dtok(content[pos:pos + n]) or (n != len(exp) and not is_hard(sc["script"]) and avail_rec >= recsize):
+        if m.group(2) != dtok(content[pos:pos + n]) or (n != len(exp) and not hard and avail_rec >= recsize):
             bad.append("member read %s at offset %d returned %s, expected %d bytes %s" % (op, pos, tok, len(exp), dtok(exp)))
             break
         pos += n
@@ -699,6 +807,7 @@ def parse_line(l, B, small, bx):
                 return None
             sparse = [] if w[7] == "-" else [tuple(int(v) for v in e.split(":")) for e in w[7].split(",")]
             sc["args"] = (w[4], int(w[5]), int(w[6]), sparse, [] if w[8] == "-" else w[8].split(","))
+            sc["spec"] = "xtarspec %s %s %s %s %s %s %s" % (w[1], w[2], w[4], w[5], w[6], w[7], w[8])
         elif kind == "xistream":
             sc["spec"] = "xspec %s %s %s %s" % (w[1], w[2], w[4], w[5])
             if b not in bx or bx[b][0] != int(w[2]):
@@ -961,12 +1070,36 @@ def run(ctx):
         for e in sc["script"][:used]:
             run = run + 1 if e == "i" else 0
             longest = max(longest, run)
+    # the compressed branch of tar_open_stream / drain_compressed_stream: what the xtarstrm scenarios really reached
+    zst = {"modes": {}, "compressed_set": 0, "unmodelled_probe_failed": 0, "end_of_archive_after_drain": 0,
+           "drain_reported_error": 0, "drain_reported_error_soft_script": 0}
+    for sc in done:
+        if sc["kind"] != "xtarstrm":
+            continue
+        zst["modes"][sc.get("zmode", "corpus")] = zst["modes"].get(sc.get("zmode", "corpus"), 0) + 1
+        if sc["impl"].startswith("z=0"):
+            zst["unmodelled_probe_failed"] += 1
+            continue
+        toks = TAIL.sub("", sc["impl"]).split(" ")
+        if "z=1" in toks:
+            zst["compressed_set"] += 1
+        if "n2=1" in toks or toks[0] == "n1=1":
+            zst["end_of_archive_after_drain"] += 1
+        arch, damaged = z_decode(parse_data(sc["args"][0]))
+        rs = sc["args"][1]
+        mend = 512 + rs + (512 - rs % 512) % 512 + 1024
+        # the decompressor delivered the whole archive incl. a complete end-of-archive marker, the stream is damaged behind
+        # it, and it_next answered with the decompressor's error: that error can only come from the drain
+        if damaged and len(arch) >= mend and not arch[mend - 1024:mend].strip(b"\0") and "n2=-%d" % ERR_COMPRESSOR in toks:
+            zst["drain_reported_error"] += 1
+            if not is_hard(sc["script"]):
+                zst["drain_reported_error_soft_script"] += 1
     nspec = sum(1 for sc in done if sc.get("specout") is not None)
     nlines = sum(1 for sc in done if sc.get("linesout") is not None)
     nfull = sum(1 for sc in done if sc.get("implfull") is not None)
     ctx.log("in-process: %d scenarios, %d with ≥1 scripted event consumed, %d events fired %s, longest EINTR run consumed %d, "
-            "%d vs own unperturbed run, %d vs ideal-stream spec, %d vs line scanner, %.1fs" % (
-                len(done), len(nontrivial), consumed, evhist, longest, nfull, nspec, nlines, t_in))
+            "%d vs own unperturbed run, %d vs ideal-stream spec, %d vs line scanner, compressed tar branch %s, %.1fs" % (
+                len(done), len(nontrivial), consumed, evhist, longest, nfull, nspec, nlines, zst, t_in))
     if not any(v["key"].startswith("crash:") for v in ctx.violations):
         # floors: a part of the check that evaluated nothing is a failure of the check, not a pass
         need = ["readat", "writeat", "ostream", "istream:B=%d" % B, "xistream:B=%d" % B, "xostream:B=%d" % B, "tarstrm:B=%d" % B,
@@ -975,6 +1108,9 @@ def run(ctx):
         lack = [k for k in need if kinds.get(k, 0) < (10 if ctx.quick() else 100)]
         lack += ["xistream (small buffers)"] if sum(kinds.get("xistream:B=%d" % b, 0) for b in small) < 200 else []
         lack += ["xostream (small buffers)"] if sum(kinds.get("xostream:B=%d" % b, 0) for b in small) < 200 else []
+        if zst["compressed_set"] < (150 if ctx.quick() else 1500) or zst["drain_reported_error_soft_script"] < (8 if ctx.quick() else 100) \
+                or zst["end_of_archive_after_drain"] < (15 if ctx.quick() else 150):
+            lack.append("compressed branch of tar_open_stream / drain with an error: %s" % zst)
         if lack or len(done) != len(scen) or min(evhist.values()) == 0 or longest < 200 or nspec < 500 or nlines < 50 \
                 or nfull < 1000 or len(nontrivial) < len(done) // 2 or (ncorpus == 0 and (vlib.CORPUS / "C12").exists()):
             raise vlib.CheckFailure("in-process part evaluated too little: missing/too few %s; %d of %d scenarios evaluated; events %s; "
@@ -1024,6 +1160,7 @@ def run(ctx):
                 "hard errors in ~25%%, sizes around BUFSZ (=%d, and BUFSZ∈%s builds of the same istream.c) and around 512/1024; "
                 "non-trivial = distinct scenario in which at least one scripted short count/EINTR/error was actually consumed by a system call" % (B, small),
         "scenario_kinds": kinds,
+        "compressed_tar_branch": zst,
         "script_events_fired": evhist,
         "script_events_consumed": consumed,
         "corpus_scenarios": ncorpus,
